@@ -71,6 +71,42 @@ structure Inv (g : Glyph) : Prop where
 /-- the invariant for all containers of a world -/
 def WInv (w : World) : Prop := ∀ g ∈ w.conts, Inv g
 
+/-! #### what an observer can tell apart (round 3: lazily loaded contours) -/
+
+/-- Two containers hold the same objects (inserted, staged, abandoned) and register the same identifiers.  They
+may differ in whether lazily loaded contours have been loaded (`shallow`) and in the order in which the registry
+lists the identifiers (`glyph.identifiers` is a Python set). -/
+structure Glyph.Same (a b : Glyph) : Prop where
+  contours : a.contours = b.contours
+  comps : a.comps = b.comps
+  anchors : a.anchors = b.anchors
+  guides : a.guides = b.guides
+  cur : a.cur = b.cur
+  stC : a.stC = b.stC
+  stK : a.stK = b.stK
+  stA : a.stA = b.stA
+  stG : a.stG = b.stG
+  leaked : a.leaked = b.leaked
+  reg : ∀ x, x ∈ a.reg ↔ x ∈ b.reg
+
+/-- the same for worlds: container by container, and the same detached objects -/
+structure World.Same (a b : World) : Prop where
+  conts : ∀ t, (a.get t).Same (b.get t)
+  limboC : a.limboC = b.limboC
+  limboK : a.limboK = b.limboK
+  limboA : a.limboA = b.limboA
+  limboG : a.limboG = b.limboG
+
+/-- every glyph's contours are loaded -/
+def World.Loaded (w : World) : Prop := ∀ g ∈ w.conts, g.shallow = false
+
+/-- The operations whose very first action is a read access to the contours of a glyph (which one). -/
+def Op.looksFirst : Op → Option Nat
+  | .insContour t _ _ | .rmContour t _ | .clearContours t | .insPoint t _ _ _ | .addPoint t _ _ | .rmPoint t _ _
+  | .clearContour t _ | .reverse t _ | .rmSegment t _ _ _ | .split t _ _ | .setStart t _ _ | .setContourId t _ _
+  | .genContourId t _ _ | .genPointId t _ _ _ | .clearGlyph t | .reload t _ | .rmAbsentPoint t _ | .load t => some t
+  | _ => none
+
 /-- The single-object operations: everything that introduces one object or one identifier. -/
 def Op.single : Op → Bool
   | .insContour .. | .reinsContour .. | .insPoint .. | .addPoint .. | .setContourId .. | .genContourId ..
@@ -96,7 +132,7 @@ def Op.inst : Op → Bool
 first one that is rejected (F29, second call site, when objects built so far are dropped). -/
 def Op.composite : Op → Bool
   | .draw .. | .drawFrom .. | .copyFrom .. | .insertGlyph .. | .roundtrip .. | .deserializeFrom ..
-  | .fontRoundtrip | .reload .. | .reopen .. => true
+  | .fontRoundtrip | .reload .. | .reopen .. | .insertGlyphVia .. => true
   | _ => false
 
 /-- A history that stays clear of F29: nothing is instantiated without being inserted, and no
